@@ -117,4 +117,22 @@ def M6.step (minLen : Nat) (m : M6) (s : TStep) : M6 :=
 
 def monC06 (minLen : Nat) (tr : List TStep) : List String := (tr.foldl (M6.step minLen) {}).fails
 
+/-! ## C11 (threshold at trigger time): every file the throttle starts — immediately or deferred, in the
+middle of a trigger — is started with the background / threshold of the most recent upstream start -/
+
+structure M11 where
+  lastTag : Option Nat := none
+  fails : List String := []
+
+def M11.step (m : M11) (s : TStep) : M11 :=
+  let m := match s.req with
+    | .start _ tag _ => { m with lastTag := some tag }
+    | _ => m
+  let bad := s.obs.any fun o => match o with
+    | .bStart tag _ => some tag != m.lastTag
+    | _ => false
+  if bad then { m with fails := m.fails ++ ["C11:file-started-with-stale-threshold-or-background"] } else m
+
+def monC11Thr (tr : List TStep) : List String := (tr.foldl M11.step {}).fails
+
 end TR
